@@ -2,7 +2,7 @@
 Lemmas about the packer / file-writer / indexer actor model (`Model/PackerActor.lean`): invariants of every schedule.
 * `Sound`   — what index files (stored or still in the indexer) and written-results list is stored  ⇒ `index_lists_only_written_packs`
 * `Report`  — a failed storage operation stays visible until the command returns                    ⇒ `failed_op_reports_error`
-* `Track`   — every pack handed to a writer is queued, written, or stored and listed               ⇒ `ok_result_all_listed`
+* `Track`   — every pack handed to a writer is in flight, or stored and listed; snapshots stay readable  ⇒ `actor_every_schedule_point_consistent`
 -/
 import Rustic.Model.PackerActor
 import Rustic.Lemmas.Repo
@@ -342,5 +342,408 @@ theorem report_step (maxCount : Nat) (s : St) (e : Ev) (h : Report s) : Report (
 theorem report_run (maxCount : Nat) : ∀ (evs : List Ev) (s : St), Report s → Report (run maxCount s evs)
   | [], _, h => h
   | e :: evs, s, h => report_run maxCount evs (step maxCount s e) (report_step maxCount s e h)
+
+/-! ### invariant 3: every pack handed to a writer is in flight, or stored and listed -/
+
+def InFlight (s : St) (p : Pack) : Prop := ∃ w, w < s.n ∧ (p ∈ (s.wr w).queue ∨ some p ∈ (s.wr w).stream)
+def IsListed (s : St) (p : Pack) : Prop := idxPackOf p ∈ s.file ∨ ∃ i ∈ s.repo.indexes, idxPackOf p ∈ i.packs
+def Done (s : St) (p : Pack) : Prop := p ∈ s.repo.packs ∧ IsListed s p
+
+structure Track (r0 : Repo) (s : St) : Prop where
+  sent : Bad s ∨ ∀ p ∈ s.sent, InFlight s p ∨ Done s p
+  idx0 : ∀ i ∈ r0.indexes, i ∈ s.repo.indexes
+  snaps : ∀ sn ∈ s.repo.snaps, readable s.repo sn = true
+
+theorem indexed_mono {r r' : Repo} (h : ∀ i ∈ r.indexes, i ∈ r'.indexes) (k : Key) (hk : indexed r k = true) :
+    indexed r' k = true := by
+  rw [indexed_iff] at hk ⊢
+  obtain ⟨i, hi, x⟩ := hk
+  exact ⟨i, h i hi, x⟩
+
+theorem readable_mono {r r' : Repo} (h : ∀ i ∈ r.indexes, i ∈ r'.indexes) (sn : Snap) (hk : readable r sn = true) :
+    readable r' sn = true := by
+  rw [readable_iff] at hk ⊢
+  exact fun k hkk => indexed_mono h k (hk k hkk)
+
+theorem idxFinal_indexes (s : St) : ∀ i ∈ s.repo.indexes, i ∈ (idxFinal s).indexes := by
+  intro i hi
+  unfold idxFinal
+  split
+  · exact hi
+  · exact List.mem_cons_of_mem _ hi
+
+theorem idxFinal_snaps (s : St) : (idxFinal s).snaps = s.repo.snaps := by
+  unfold idxFinal; split <;> rfl
+
+/-- after `indexer.finalize` everything the indexer held is listed by a stored index file -/
+theorem idxFinal_lists (s : St) (x : IdxPack) (hx : x ∈ s.file) : ∃ i ∈ (idxFinal s).indexes, x ∈ i.packs := by
+  unfold idxFinal
+  split
+  · rename_i he
+    simp only [List.isEmpty_iff] at he
+    rw [he] at hx; cases hx
+  · exact ⟨_, List.mem_cons_self, hx⟩
+
+theorem track_init (r : Repo) (n : Nat) (h : ∀ sn ∈ r.snaps, readable r sn = true) : Track r (init r n) :=
+  ⟨Or.inr (by simp [init]), fun _ hi => hi, h⟩
+
+/-- what the finish event of a schedule must satisfy: the snapshot's closure is indexed before the run or consists of
+blobs of packs handed to a writer before (the archiver's obligation) -/
+def evCovered (r0 : Repo) (s : St) : Ev → Prop
+  | .finish snap _ _ => ∀ k ∈ snap.needs, indexed r0 k = true ∨ ∃ p ∈ s.sent, k ∈ p.blobs
+  | _ => True
+
+/-- `Bad` is inherited by any state whose writers keep their `dead` flags and the `none`s of their streams (or die) -/
+theorem bad_of_bad {s t : St} (h : Bad s) (hn : t.n = s.n) (hd : ∀ w, (s.wr w).dead = true → (t.wr w).dead = true)
+    (hs : ∀ w, none ∈ (s.wr w).stream → none ∈ (t.wr w).stream ∨ (t.wr w).dead = true) : Bad t := by
+  obtain ⟨w, hw, h | h⟩ := h
+  · exact ⟨w, hn ▸ hw, Or.inl (hd w h)⟩
+  · exact ⟨w, hn ▸ hw, (hs w h).symm⟩
+
+theorem bad_addToIndexer (maxCount : Nat) (s : St) (w : Nat) (p : Pack) (age ok : Bool) (h : Bad s) :
+    Bad (addToIndexer maxCount s w p age ok) := by
+  unfold addToIndexer
+  split
+  · split
+    · exact bad_of_bad h rfl (fun _ h => h) (fun _ h => Or.inl h)
+    · refine bad_of_bad h rfl (fun v h => ?_) (fun v h => ?_)
+      · simp only [setWr_wr]; split <;> simp_all
+      · simp only [setWr_wr]; split
+        · exact Or.inr rfl
+        · exact Or.inl h
+  · exact bad_of_bad h rfl (fun _ h => h) (fun _ h => Or.inl h)
+
+theorem bad_step (maxCount : Nat) (s : St) (e : Ev) (h : Bad s) : Bad (step maxCount s e) := by
+  cases e with
+  | send w p =>
+    simp only [step]
+    split
+    · exact h
+    · refine bad_of_bad h rfl (fun v h => ?_) (fun v h => ?_)
+      · simp only [setWr_wr]; split <;> simp_all
+      · simp only [setWr_wr]; split <;> simp_all
+  | write w ok =>
+    simp only [step]
+    split
+    · exact h
+    · split
+      · exact h
+      · split
+        · refine bad_of_bad h rfl (fun v h => ?_) (fun v h => ?_)
+          · simp only [setWr_wr]; split <;> simp_all
+          · simp only [setWr_wr]; split <;> simp_all
+        · refine bad_of_bad h rfl (fun v h => ?_) (fun v h => ?_)
+          · simp only [setWr_wr]; split <;> simp_all
+          · simp only [setWr_wr]; split <;> simp_all
+  | index w age ok =>
+    simp only [step]
+    split
+    · exact h
+    · split
+      · exact h
+      · rename_i rest hq
+        refine bad_of_bad h rfl (fun v h => ?_) (fun v h => ?_)
+        · simp only [setWr_wr]; split <;> simp_all
+        · simp only [setWr_wr]; split
+          · exact Or.inr rfl
+          · exact Or.inl h
+      · rename_i p rest hq
+        apply bad_addToIndexer
+        refine bad_of_bad h rfl (fun v h => ?_) (fun v h => ?_)
+        · simp only [setWr_wr]; split <;> simp_all
+        · simp only [setWr_wr]; split
+          · subst_vars; rw [hq] at h; simp at h; exact Or.inl h
+          · exact Or.inl h
+  | finish snap okIdx okSnap =>
+    simp only [step]
+    split
+    · exact h
+    · split
+      · exact bad_of_bad h rfl (fun _ h => h) (fun _ h => Or.inl h)
+      · split
+        · exact h
+        · split
+          · exact bad_of_bad h rfl (fun _ h => h) (fun _ h => Or.inl h)
+          · split
+            · exact bad_of_bad h rfl (fun _ h => h) (fun _ h => Or.inl h)
+            · exact bad_of_bad h rfl (fun _ h => h) (fun _ h => Or.inl h)
+
+/-- `InFlight` / `Done` are monotone in what they look at -/
+theorem inflight_mono {s t : St} {p : Pack} (h : InFlight s p) (hn : t.n = s.n)
+    (hq : ∀ v q, q ∈ (s.wr v).queue → q ∈ (t.wr v).queue ∨ some q ∈ (t.wr v).stream)
+    (hs : ∀ v q, some q ∈ (s.wr v).stream → some q ∈ (t.wr v).stream) : InFlight t p := by
+  obtain ⟨w, hw, h | h⟩ := h
+  · exact ⟨w, hn ▸ hw, hq w p h⟩
+  · exact ⟨w, hn ▸ hw, Or.inr (hs w p h)⟩
+
+theorem done_mono {s t : St} {p : Pack} (h : Done s p) (hp : ∀ q ∈ s.repo.packs, q ∈ t.repo.packs)
+    (hf : ∀ x ∈ s.file, x ∈ t.file ∨ ∃ i ∈ t.repo.indexes, x ∈ i.packs)
+    (hi : ∀ i ∈ s.repo.indexes, i ∈ t.repo.indexes) : Done t p := by
+  refine ⟨hp p h.1, ?_⟩
+  rcases h.2 with h2 | ⟨i, hi', hx⟩
+  · exact hf _ h2
+  · exact Or.inr ⟨i, hi i hi', hx⟩
+
+/-- the `sent` part of the invariant through `Indexer::add_with` for the pack `p0` just taken off a stream -/
+theorem sent_addToIndexer (maxCount : Nat) (s : St) (w : Nat) (p0 : Pack) (age ok : Bool) (hw : w < s.n)
+    (hp0 : p0 ∈ s.repo.packs) (hs : ∀ p ∈ s.sent, (InFlight s p ∨ p = p0) ∨ Done s p) :
+    Bad (addToIndexer maxCount s w p0 age ok) ∨
+      ∀ p ∈ (addToIndexer maxCount s w p0 age ok).sent, InFlight (addToIndexer maxCount s w p0 age ok) p ∨
+        Done (addToIndexer maxCount s w p0 age ok) p := by
+  unfold addToIndexer
+  split
+  · split
+    · refine Or.inr (fun p hp => ?_)
+      rcases hs p hp with (hfl | rfl) | hd
+      · exact Or.inl (inflight_mono hfl rfl (fun _ _ h => Or.inl h) (fun _ _ h => h))
+      · exact Or.inr ⟨hp0, Or.inr ⟨_, List.mem_cons_self, by simp⟩⟩
+      · refine Or.inr (done_mono hd (fun q hq => hq) (fun x hx => Or.inr ⟨_, List.mem_cons_self, ?_⟩)
+          (fun i hi => List.mem_cons_of_mem _ hi))
+        simp [hx]
+    · exact Or.inl ⟨w, hw, Or.inl (by simp)⟩
+  · refine Or.inr (fun p hp => ?_)
+    rcases hs p hp with (hfl | rfl) | hd
+    · exact Or.inl (inflight_mono hfl rfl (fun _ _ h => Or.inl h) (fun _ _ h => h))
+    · exact Or.inr ⟨hp0, Or.inl (by simp)⟩
+    · exact Or.inr (done_mono hd (fun q hq => hq) (fun x hx => Or.inl (by simp [hx])) (fun i hi => hi))
+
+/-- everything sent is `Done` once all writers are quiet -/
+theorem done_of_quiet {s : St} (hq : Quiet s) (hs : Bad s ∨ ∀ p ∈ s.sent, InFlight s p ∨ Done s p) :
+    ∀ p ∈ s.sent, Done s p := by
+  intro p hp
+  rcases hs with hb | hs
+  · exact absurd hb (not_bad_of_quiet hq)
+  · rcases hs p hp with ⟨v, hv, hfl⟩ | hdn
+    · have := hq v hv
+      rcases hfl with hfl | hfl
+      · rw [this.2.1] at hfl; cases hfl
+      · rw [this.2.2] at hfl; cases hfl
+    · exact hdn
+
+theorem listed_of_done {s : St} {p : Pack} (h : Done s p) : ∃ i ∈ (idxFinal s).indexes, idxPackOf p ∈ i.packs := by
+  rcases h.2 with hf | ⟨i, hi, hx⟩
+  · exact idxFinal_lists s _ hf
+  · exact ⟨i, idxFinal_indexes s i hi, hx⟩
+
+theorem sent_step (maxCount : Nat) (s : St) (e : Ev) (hS : Sound s)
+    (hT : Bad s ∨ ∀ p ∈ s.sent, InFlight s p ∨ Done s p) :
+    Bad (step maxCount s e) ∨ ∀ p ∈ (step maxCount s e).sent, InFlight (step maxCount s e) p ∨ Done (step maxCount s e) p := by
+  rcases hT with hb | hs
+  · exact Or.inl (bad_step maxCount s e hb)
+  cases e with
+  | send w p0 =>
+    simp only [step]
+    split
+    · exact Or.inr hs
+    · rename_i hg
+      simp only [Bool.or_eq_true, decide_eq_true_eq, not_or, Nat.not_le] at hg
+      refine Or.inr (fun p hp => ?_)
+      simp only [setWr_sent, List.mem_cons] at hp
+      rcases hp with rfl | hp
+      · exact Or.inl ⟨w, hg.2, Or.inl (by simp)⟩
+      · rcases hs p hp with hfl | hd
+        · refine Or.inl (inflight_mono hfl rfl (fun v q h => Or.inl ?_) (fun v q h => ?_))
+          · simp only [setWr_wr]; split
+            · subst_vars; simp [h]
+            · exact h
+          · simp only [setWr_wr]; split
+            · subst_vars; exact h
+            · exact h
+        · exact Or.inr (done_mono hd (fun q hq => hq) (fun x hx => Or.inl hx) (fun i hi => hi))
+  | write w ok =>
+    simp only [step]
+    split
+    · exact Or.inr hs
+    · rename_i hw
+      have hw : w < s.n := by simpa using hw
+      split
+      · exact Or.inr hs
+      · rename_i p0 rest hq
+        split
+        · refine Or.inr (fun p hp => ?_)
+          rcases hs p hp with hfl | hd
+          · refine Or.inl (inflight_mono hfl rfl (fun v q h => ?_) (fun v q h => ?_))
+            · simp only [setWr_wr]; split
+              · subst_vars
+                rw [hq] at h
+                rcases List.mem_cons.mp h with rfl | h
+                · exact Or.inr (by simp)
+                · exact Or.inl h
+              · exact Or.inl h
+            · simp only [setWr_wr]; split
+              · subst_vars; simp [h]
+              · exact h
+          · exact Or.inr (done_mono hd (fun q hq => List.mem_cons_of_mem _ hq) (fun x hx => Or.inl hx) (fun i hi => hi))
+        · exact Or.inl ⟨w, hw, Or.inr (by simp)⟩
+  | index w age ok =>
+    simp only [step]
+    split
+    · exact Or.inr hs
+    · rename_i hw
+      simp only [Bool.or_eq_true, decide_eq_true_eq, not_or, Nat.not_le] at hw
+      split
+      · exact Or.inr hs
+      · exact Or.inl ⟨w, hw.1, Or.inl (by simp)⟩
+      · rename_i p0 rest hq
+        refine sent_addToIndexer maxCount (setWr s w _) w p0 age ok hw.1
+          (hS.stream w p0 (by rw [hq]; exact List.mem_cons_self)) (fun p hp => ?_)
+        rcases hs p hp with ⟨v, hv, hfl⟩ | hd
+        · by_cases hvw : v = w
+          · subst hvw
+            rcases hfl with hfl | hfl
+            · exact Or.inl (Or.inl ⟨v, hv, Or.inl (by simp [hfl])⟩)
+            · rw [hq] at hfl
+              rcases List.mem_cons.mp hfl with h | h
+              · exact Or.inl (Or.inr (by injection h))
+              · exact Or.inl (Or.inl ⟨v, hv, Or.inr (by simp [h])⟩)
+          · exact Or.inl (Or.inl ⟨v, hv, by simpa [hvw] using hfl⟩)
+        · exact Or.inr (done_mono hd (fun q hq => hq) (fun x hx => Or.inl hx) (fun i hi => hi))
+  | finish snap okIdx okSnap =>
+    simp only [step]
+    split
+    · exact Or.inr hs
+    · split
+      · exact Or.inr hs
+      · split
+        · exact Or.inr hs
+        · rename_i hnone hd hdr
+          have hquiet : Quiet s := quiet_of s hd (by simpa using hdr)
+          have hdone := done_of_quiet hquiet (Or.inr hs)
+          split
+          · exact Or.inr hs
+          · split
+            · refine Or.inr (fun p hp => Or.inr ⟨?_, ?_⟩)
+              · show p ∈ (apply (idxFinal s) (Op.writeSnap snap)).packs
+                simp only [apply, idxFinal_packs]; exact (hdone p hp).1
+              · obtain ⟨i, hi, hx⟩ := listed_of_done (hdone p hp)
+                exact Or.inr ⟨i, hi, hx⟩
+            · refine Or.inr (fun p hp => Or.inr ⟨?_, ?_⟩)
+              · show p ∈ (idxFinal s).packs
+                rw [idxFinal_packs]; exact (hdone p hp).1
+              · obtain ⟨i, hi, hx⟩ := listed_of_done (hdone p hp)
+                exact Or.inr ⟨i, hi, hx⟩
+
+theorem addToIndexer_indexes (maxCount : Nat) (s : St) (w : Nat) (p : Pack) (age ok : Bool) :
+    ∀ i ∈ s.repo.indexes, i ∈ (addToIndexer maxCount s w p age ok).repo.indexes := by
+  intro i hi
+  unfold addToIndexer
+  split
+  · split
+    · exact List.mem_cons_of_mem _ hi
+    · exact hi
+  · exact hi
+
+theorem addToIndexer_snaps (maxCount : Nat) (s : St) (w : Nat) (p : Pack) (age ok : Bool) :
+    (addToIndexer maxCount s w p age ok).repo.snaps = s.repo.snaps := by
+  unfold addToIndexer
+  split
+  · split <;> rfl
+  · rfl
+
+/-- index files are only ever added -/
+theorem step_indexes (maxCount : Nat) (s : St) (e : Ev) :
+    ∀ i ∈ s.repo.indexes, i ∈ (step maxCount s e).repo.indexes := by
+  intro i hi
+  cases e with
+  | send w p => simp only [step]; split <;> exact hi
+  | write w ok =>
+    simp only [step]
+    split
+    · exact hi
+    · split
+      · exact hi
+      · split <;> exact hi
+  | index w age ok =>
+    simp only [step]
+    split
+    · exact hi
+    · split
+      · exact hi
+      · exact hi
+      · exact addToIndexer_indexes _ _ _ _ _ _ i hi
+  | finish snap okIdx okSnap =>
+    simp only [step]
+    split
+    · exact hi
+    · split
+      · exact hi
+      · split
+        · exact hi
+        · split
+          · exact hi
+          · split
+            · exact idxFinal_indexes s i hi
+            · exact idxFinal_indexes s i hi
+
+/-- snapshot files: unchanged, except for a successful `finish`, which adds its snapshot on top of `idxFinal` -/
+theorem step_snaps (maxCount : Nat) (s : St) (e : Ev) :
+    (step maxCount s e).repo.snaps = s.repo.snaps ∨
+    ∃ snap a b, e = .finish snap a b ∧ Quiet s ∧ (step maxCount s e).repo = apply (idxFinal s) (.writeSnap snap) := by
+  cases e with
+  | send w p => left; simp only [step]; split <;> rfl
+  | write w ok =>
+    left
+    simp only [step]
+    split
+    · rfl
+    · split
+      · rfl
+      · split <;> rfl
+  | index w age ok =>
+    left
+    simp only [step]
+    split
+    · rfl
+    · split
+      · rfl
+      · rfl
+      · rw [addToIndexer_snaps]; rfl
+  | finish snap okIdx okSnap =>
+    simp only [step]
+    split
+    · exact Or.inl rfl
+    · split
+      · exact Or.inl rfl
+      · split
+        · exact Or.inl rfl
+        · rename_i hnone hd hdr
+          split
+          · exact Or.inl rfl
+          · split
+            · exact Or.inr ⟨snap, okIdx, okSnap, rfl, quiet_of s hd (by simpa using hdr), rfl⟩
+            · exact Or.inl (idxFinal_snaps s)
+
+theorem track_step (maxCount : Nat) (r0 : Repo) (s : St) (e : Ev) (hS : Sound s) (hT : Track r0 s)
+    (hc : evCovered r0 s e) : Track r0 (step maxCount s e) := by
+  refine ⟨sent_step maxCount s e hS hT.sent, fun i hi => step_indexes maxCount s e i (hT.idx0 i hi), fun sn hsn => ?_⟩
+  rcases step_snaps maxCount s e with h | ⟨snap, a, b, rfl, hquiet, hrepo⟩
+  · rw [h] at hsn
+    exact readable_mono (step_indexes maxCount s e) sn (hT.snaps sn hsn)
+  · rw [hrepo] at hsn ⊢
+    have hs' : sn = snap ∨ sn ∈ s.repo.snaps := by
+      have : sn ∈ snap :: (idxFinal s).snaps := hsn
+      rw [idxFinal_snaps] at this
+      exact List.mem_cons.mp this
+    rw [readable_congr (apply (idxFinal s) (Op.writeSnap snap)) (idxFinal s) rfl]
+    rcases hs' with rfl | hs'
+    · rw [readable_iff]
+      intro k hk
+      rcases hc k hk with h0 | ⟨p, hp, hkp⟩
+      · exact indexed_mono (fun i hi => idxFinal_indexes s i (hT.idx0 i hi)) k h0
+      · obtain ⟨i, hi, hx⟩ := listed_of_done (done_of_quiet hquiet hT.sent p hp)
+        rw [indexed_iff]
+        exact ⟨i, hi, idxPackOf p, hx, hkp⟩
+    · exact readable_mono (idxFinal_indexes s) sn (hT.snaps sn hs')
+
+/-- the snapshot of every `finish` event of the schedule is covered (see `evCovered`) in the state it meets -/
+def Covered (maxCount : Nat) (r0 : Repo) : St → List Ev → Prop
+  | _, [] => True
+  | s, e :: es => evCovered r0 s e ∧ Covered maxCount r0 (step maxCount s e) es
+
+theorem track_run (maxCount : Nat) (r0 : Repo) : ∀ (evs : List Ev) (s : St), Sound s → Track r0 s →
+    Covered maxCount r0 s evs → Track r0 (run maxCount s evs)
+  | [], _, _, h, _ => h
+  | e :: evs, s, hS, hT, hc =>
+    track_run maxCount r0 evs (step maxCount s e) (sound_step maxCount s e hS) (track_step maxCount r0 s e hS hT hc.1) hc.2
 
 end Rustic.PackerActor
